@@ -11,6 +11,7 @@ d.declare(e)
 d.declare_io(e)
 d.declare_licensing(e)
 d.declare_cli(e)
+d.declare_paths(e)
 allv=[]
 for fn in fns:
     t=time.time()
@@ -21,5 +22,5 @@ solve_all(allv, tier="quick")
 for vc in allv:
     r = vc.result
     if r["verdict"]!="unsat" and not (vc.kind=="cover" and r["verdict"]=="sat"):
-        print(vc.kind, r["verdict"], r["backend"], round(r["seconds"],2), vc.name, vc.note, str(r["model"])[:300] if r["verdict"]=="sat" and vc.kind=="valid" else "", r["log"] if r["verdict"]=="unknown" else "")
+        print(vc.kind, r["verdict"], r["backend"], round(r["seconds"],2), vc.name, vc.note, str(r["model"]) if r["verdict"]=="sat" and vc.kind=="valid" else "", r["log"] if r["verdict"]=="unknown" else "")
 print("total", len(allv), "unsat", sum(1 for v in allv if v.result["verdict"]=="unsat"))
